@@ -26,7 +26,7 @@ RULE = ("histories of 10-60 operations {register (safe/unsafe, uri as str or URI
 ASSUMPTIONS = ["an empty name/prefix/regex argument means 'not given' (the API's own convention on both back-ends)",
                "results are normalised to (uri text, set of tags); any exception type counts as 'raises' for injected failures",
                "sqlite's own journaling is trusted for crash atomicity; the check observes it through reopen"]
-REQUIRED_REACH = ["steps_agree", "reopens_ok", "failpoints_ok", "failpoint_statements", "daemon_steps_agree", "prefix_wildcard_cases", "case_pair_cases"]
+REQUIRED_REACH = ["steps_agree", "reopens_ok", "failpoints_ok", "failpoint_statements", "daemon_steps_agree", "prefix_wildcard_cases", "case_pair_cases", "bulk_removals_ok"]
 SHARD_TIMEOUT = {"quick": 240, "thorough": 3000}
 NSNAME = "Pyro.NameServer"
 NAMES = ["test", "Test", "TEST", "test.a", "test.b", "Test.a", "tes", "te%t", "te_t", "te.t", "%", "_", "a%", "axb", "a_b", "a.b", "a+b", "a*", "[ab]", "(x)", "ä", "Ä", "ß", "straße",
@@ -460,6 +460,52 @@ def daemon_history(P, N, hist, rec, storage, workdir, hh):
         t.join(5)
 
 
+def bulk_case(P, N, rec, r, workdir, n, hh):
+    """the map at scale: n registrations under one prefix (a few tagged), removed in bulk by prefix or regex; counts, listings, tag searches and
+    the reopened database against a dict"""
+    dbfile = os.path.join(workdir, "bulk-%s.sqlite" % hh)
+    mem = N.NameServer(N.MemoryStorage())
+    sql = N.NameServer(N.SqlStorage(dbfile))
+    model = {}
+    pay = {"bulk": n}
+    rec.case(("bulk", n, hh), nontrivial=True, sample={"bulk_registrations": n})
+    for i in range(n):
+        name = "Bulk.job.%05d" % i
+        meta = {"bulk"} if i % 7 == 0 else None
+        for ns_ in (mem, sql):
+            ns_.register(name, "PYRO:o%d@h:1" % i, metadata=meta)
+        model[name] = ("PYRO:o%d@h:1" % i, frozenset(meta or ()))
+    for ns_ in (mem, sql):
+        ns_.register("Other.keep", "PYRO:keep@h:2", metadata={"bulk"})
+    model["Other.keep"] = ("PYRO:keep@h:2", frozenset({"bulk"}))
+    how = r.choice(["prefix", "regex"])
+    want_removed = sum(1 for k in model if k.startswith("Bulk.job."))
+    for k in [k for k in model if k.startswith("Bulk.job.")]:
+        del model[k]
+    for label, ns_ in (("memory", mem), ("sqlite", sql)):
+        removed = ns_.remove(prefix="Bulk.job.") if how == "prefix" else ns_.remove(regex=r"Bulk\.job\..*")
+        left = {k: (u, frozenset(m or ())) for k, (u, m) in ns_.list(return_metadata=True).items()}
+        tagged = sorted(ns_.yplookup(meta_any={"bulk"}))
+        problems = []
+        if removed != want_removed:
+            problems.append("remove(%s) of %d registrations reported %r" % (how, want_removed, removed))
+        if left != model:
+            problems.append("%d entries are left, the map has %d (e.g. %r)" % (len(left), len(model), sorted(set(left) - set(model))[:3]))
+        if ns_.count() != len(model):
+            problems.append("count() says %d, the map has %d" % (ns_.count(), len(model)))
+        if tagged != ["Other.keep"]:
+            problems.append("tag search finds %d names (e.g. %r), the map has ['Other.keep']" % (len(tagged), tagged[:3]))
+        if problems:
+            rec.violation("%s-backend-differs-from-map:bulk-remove" % label, "%d registrations under one prefix, removed by %s on the %s back-end: %s" % (n, how, label, "; ".join(problems)), pay)
+            return
+    after = listing_of(N, dbfile)
+    if after != model:
+        rec.violation("reopened-database-differs", "after a bulk removal of %d registrations the reopened database holds %d entries, the map %d" % (n, len(after), len(model)), pay)
+        return
+    rec.count("bulk_removals_ok")
+    rec.count("bulk_registrations", n)
+
+
 def plan(tier, seed):
     n = 8 if tier == "quick" else 16
     return [{"i": i, "histories": 60 if tier == "quick" else 400, "fp_histories": 10 if tier == "quick" else 60, "daemon_histories": 2 if tier == "quick" else 10,
@@ -482,6 +528,8 @@ def run_shard(shard, rec):
             hist = [x for x in gen_history(r, 25)]
             for storage in ("memory", "sql:" + os.path.join(workdir, "d%d.sqlite" % h)):
                 daemon_history(P, N, hist, rec, storage, workdir, "%d-%d" % (shard["i"], h))
+        if shard["i"] < 2 or rec.tier != "quick":
+            bulk_case(P, N, rec, r, workdir, r.choice([1001, 1250]) if shard["i"] % 2 == 0 else r.choice([300, 2100]), "%d" % shard["i"])
         if shard["crash"]:
             crash_points(P, N, gen_history(r, 30), rec, workdir, "%d" % shard["i"], shard["crash"])
     finally:
@@ -494,7 +542,9 @@ def replay(payload, rec):
     N.sqlite3 = ShimSqlite()
     workdir = tempfile.mkdtemp(prefix="c14-", dir=os.path.join(core.VERIF, ".work"))
     try:
-        if payload.get("daemon"):
+        if payload.get("bulk"):
+            bulk_case(P, N, rec, gen.rng(rec.seed, "replay"), workdir, payload["bulk"], "replay")
+        elif payload.get("daemon"):
             daemon_history(P, N, payload["history"], rec, payload["daemon"] if payload["daemon"] == "memory" else "sql:" + os.path.join(workdir, "r.sqlite"), workdir, "replay")
         elif "crash_at" in payload:
             crash_points(P, N, payload["history"], rec, workdir, "replay", 10 ** 6)
